@@ -6,6 +6,9 @@ From Proofs Require Import CacheProofs.
 Import ListNotations.
 Open Scope Z_scope.
 
+Ltac simpo := cbn [o_atoms o_adj o_cache o_changed o_backup o_name o_meta set_adj set_atoms set_cache set_changed set_backup
+                    set_name set_meta] in *.
+
 (* _changed names existing atoms only *)
 Definition cw (o : mobj) : Prop := forall l, o_changed o = Some l -> forall x, In x l -> In x (keys (o_atoms o)).
 Definition inv1 (h : hp) (o : mobj) : Prop := wf h o /\ cw o.
@@ -18,9 +21,9 @@ Definition fine (h : hp) (o : mobj) (h' : hp) (o' : mobj) : Prop :=
   o_backup o' = o_backup o.
 
 Lemma fine_refl h o : fine h o h o.
-Proof. repeat split; auto using heap_le_refl. lia. Qed.
+Proof. split; [apply heap_le_refl|]. split; [reflexivity|]. split; [auto | reflexivity]. Qed.
 Lemma fine_same h o o' : o_adj o' = o_adj o -> o_backup o' = o_backup o -> fine h o h o'.
-Proof. intros A B. repeat split; auto; try lia. rewrite A. auto. Qed.
+Proof. intros A B. split; [apply heap_le_refl|]. split; [reflexivity|]. split; [rewrite A; auto | exact B]. Qed.
 Lemma fine_trans h o h1 o1 h2 o2 : fine h o h1 o1 -> fine h1 o1 h2 o2 -> fine h o h2 o2.
 Proof.
   intros [L1 [U1 [R1 B1]]] [L2 [U2 [R2 B2]]]. split; [eapply heap_le_trans; eauto|]. split; [|split].
@@ -83,9 +86,9 @@ Lemma mark_changed_good ns :
 Proof.
   intros h o [[W C] N]. unfold mark_changed. destruct (o_changed o) eqn:E; cbn.
   - split; [|now apply fine_same]. split; [exact W|]. intros l' Hl x Hx. cbn in Hl. inversion Hl; subst.
-    apply In_fold_sadd in Hx. destruct Hx; [auto | eapply C; eauto].
+    apply In_fold_sadd in Hx. cbn. destruct Hx as [Hx|Hx]; [now apply N | eapply C; eauto].
   - split; [|now apply fine_same]. split; [exact W|]. intros l' Hl x Hx. cbn in Hl. inversion Hl; subst.
-    apply In_fold_sadd in Hx. destruct Hx as [Hx|[]]; auto.
+    apply In_fold_sadd in Hx. cbn. destruct Hx as [Hx|[]]. now apply N.
 Qed.
 Lemma discard_changed_good n : good1 (discard_changed n).
 Proof.
@@ -107,14 +110,14 @@ Lemma mark_row_spec r : forall h,
   (forall x, option_map b_ord (hget (mark_row h r) x) = option_map b_ord (hget h x)).
 Proof.
   induction r as [|[m rf] t IH]; intros h; cbn.
-  - repeat split; auto using heap_le_refl.
+  - split; [apply heap_le_refl | auto].
   - destruct (hget h rf) as [c|] eqn:E.
     + destruct (IH (hset h rf (mkB (b_ord c) true))) as [L [N [U O]]]. split; [|split; [|split]].
       * eapply heap_le_trans; [eapply heap_le_hset; eauto | exact L].
       * rewrite N. apply hnext_hset.
       * intros x Hx. rewrite U by tauto. rewrite hget_hset. destruct (Z.eqb_spec x rf); [subst; tauto | reflexivity].
       * intros x. rewrite O, hget_hset. destruct (Z.eqb_spec x rf); [subst; now rewrite E | reflexivity].
-    + destruct (IH h) as [L [N [U O]]]. repeat split; auto. intros x Hx. apply U. tauto.
+    + destruct (IH h) as [L [N [U O]]]. split; [exact L|]. split; [exact N|]. split; [|exact O]. intros x Hx. apply U. tauto.
 Qed.
 
 (* nothing but atoms' values (same keys) and the cells of this molecule's bonds changed *)
@@ -131,7 +134,7 @@ Definition relabel (h : hp) (o : mobj) (h' : hp) (o' : mobj) : Prop :=
   (forall x, ~ In x (arefs (o_adj o)) -> hget h' x = hget h x) /\
   (forall x, option_map b_ord (hget h' x) = option_map b_ord (hget h x)).
 Lemma relabel_refl h o : relabel h o h o.
-Proof. split; [apply same_struct_refl|]. repeat split; auto using heap_le_refl. Qed.
+Proof. split; [apply same_struct_refl|]. split; [apply heap_le_refl | auto]. Qed.
 Lemma relabel_trans h o h1 o1 h2 o2 : relabel h o h1 o1 -> relabel h1 o1 h2 o2 -> relabel h o h2 o2.
 Proof.
   intros [S1 [L1 [N1 [U1 O1]]]] [S2 [L2 [N2 [U2 O2]]]]. split; [eapply same_struct_trans; eauto|].
@@ -157,6 +160,8 @@ Proof. intros A h o H. specialize (A h o). destruct (a h o) as [[h1 o1] e]. eapp
 Lemma keys_zset_same {V} (d : list (Z * V)) k v v0 : zget d k = Some v0 -> keys (zset d k v) = keys d.
 Proof. intros H. apply keys_zset_in. eapply zget_In_keys; eauto. Qed.
 
+Lemma arefs_cons n (r : list (Z * ref)) t : arefs ((n, r) :: t) = map snd r ++ arefs t.
+Proof. reflexivity. Qed.
 Lemma label_rows_relabels rows : forall h o, incl (arefs rows) (arefs (o_adj o)) ->
   match label_rows rows h o with (h', o', _) => relabel h o h' o' end.
 Proof.
@@ -168,10 +173,10 @@ Proof.
     assert (relabel h o h1 o1) as R1.
     { destruct (mark_row_spec r h) as [L [N [U O]]]. split.
       - unfold o1, same_struct; cbn. repeat split. eapply keys_zset_same; eauto.
-      - repeat split; auto. intros x Hx. apply U. intros Hi. apply Hx. apply I. rewrite (arefs_app [(n, r)] t).
-        apply in_or_app. left. unfold arefs, refs_of_adj. cbn. now rewrite app_nil_r. }
+      - split; [exact L|]. split; [exact N|]. split; [|exact O]. intros x Hx. apply U. intros Hi. apply Hx. apply I. rewrite arefs_cons.
+        apply in_or_app. now left. }
     specialize (IH h1 o1). assert (incl (arefs t) (arefs (o_adj o1))) as I1.
-    { intros x Hx. apply I. rewrite (arefs_app [(n, r)] t). apply in_or_app. now right. }
+    { intros x Hx. apply I. rewrite arefs_cons. apply in_or_app. now right. }
     specialize (IH I1). destruct (label_rows t h1 o1) as [[h2 o2] e2]. eapply relabel_trans; eauto.
 Qed.
 Lemma read_relabels_not k : forall h o, match read k h o with (h', o', _) => h' = h /\ o_adj o' = o_adj o /\ o_atoms o' = o_atoms o /\
@@ -187,7 +192,7 @@ Lemma calc_implicit_relabels n : relabels (calc_implicit n).
 Proof.
   intros h o. unfold calc_implicit. destruct (zget (o_atoms o) n) as [a|] eqn:E; [|apply relabel_refl].
   destruct (zget (o_adj o) n); [|apply relabel_refl]. destruct (lenv_of_row h (o_atoms o) l); [|apply relabel_refl].
-  cbn. split; [|repeat split; auto using heap_le_refl]. unfold same_struct; cbn. repeat split. eapply keys_zset_same; eauto.
+  cbn. split; [|split; [apply heap_le_refl | auto]]. unfold same_struct; cbn. repeat split. eapply keys_zset_same; eauto.
 Qed.
 Lemma calc_implicit_all_relabels ns : relabels (calc_implicit_all ns).
 Proof.
@@ -200,3 +205,482 @@ Proof.
 Qed.
 Lemma fix_both_good : good1 (fix_structure ;; fix_stereo).
 Proof. apply good1_seq; [apply fix_structure_good | apply fix_stereo_good]. Qed.
+
+(* ================================================================================================ *)
+(* structural primitives *)
+Lemma zmax_ge l d x : In x l -> x <= zmax l d.
+Proof.
+  unfold zmax. destruct l as [|y r]; [intros []|].
+  assert (forall r a, a <= fold_left Z.max r a) as A.
+  { induction r0 as [|z t IH]; cbn; intros a; [lia|]. specialize (IH (Z.max a z)). lia. }
+  assert (forall r a x, In x r -> x <= fold_left Z.max r a) as B.
+  { induction r0 as [|z t IH]; cbn; intros a x0 []; [subst|auto]. specialize (A t (Z.max a x0)). lia. }
+  intros [E|E]; [subst; apply A | now apply B].
+Qed.
+
+Lemma put_atom_good c n' :
+  good (fun h o => inv1 h o /\ ~ In n' (keys (o_atoms o))) (put_atom c n')
+       (fun h o => inv1 h o /\ In n' (keys (o_atoms o))).
+Proof.
+  intros h o [[W C] N]. unfold put_atom, ok. cbn beta iota. destruct W as [Wk Wnd Wsym Wloop Wval Wlt]. assert (~ In n' (keys (o_adj o))) as N' by (now rewrite Wk).
+  split; [split; [split|]|].
+  - constructor; simpo.
+    + rewrite !keys_app. cbn. now rewrite Wk.
+    + now apply nd_app.
+    + intros n m r. rewrite !aslot_app by assumption. apply Wsym.
+    + intros n. rewrite aslot_app by assumption. apply Wloop.
+    + intros r. rewrite arefs_app. cbn. rewrite app_nil_r. apply Wval.
+    + intros r. rewrite arefs_app. cbn. rewrite app_nil_r. apply Wlt.
+  - intros l Hl x Hx. simpo. rewrite keys_app. apply in_or_app. left. eapply C; eauto.
+  - simpo. rewrite keys_app. apply in_or_app. right. now left.
+  - split; [apply heap_le_refl|]. split; [reflexivity|]. split; [|reflexivity]. simpo. intros r. rewrite arefs_app. cbn.
+    rewrite app_nil_r. auto.
+Qed.
+
+Lemma aslot_put adj n m rn rm rf x y :
+  zget adj n = Some rn -> zget adj m = Some rm -> n <> m ->
+  aslot (zset (zset adj n (zset rn m rf)) m (zset rm n rf)) x y =
+  if ((x =? n) && (y =? m)) || ((x =? m) && (y =? n)) then Some rf else aslot adj x y.
+Proof.
+  intros Hn Hm D. rewrite !aslot_zset, !zget_zset. unfold aslot.
+  destruct (Z.eqb_spec x m), (Z.eqb_spec x n); subst; try congruence; cbn.
+  - rewrite Hm. destruct (y =? n); reflexivity.
+  - rewrite Hn. destruct (y =? m); reflexivity.
+  - reflexivity.
+Qed.
+
+Lemma put_bond_good n m ord rn rm :
+  good (fun h o => inv1 h o /\ n <> m /\ zget (o_adj o) n = Some rn /\ zget (o_adj o) m = Some rm /\ ~ In n (keys rm))
+       (put_bond n m ord rn rm)
+       (fun h o => inv1 h o /\ forall x, In x [m; n] -> In x (keys (o_atoms o))).
+Proof.
+  intros h o [[W C] [D [Hn [Hm Nn]]]]. unfold put_bond, halloc, ok. cbn beta iota.
+  set (rf := h_next h). set (h1 := mkH ((rf, mkB ord false) :: h_cells h) (rf + 1)).
+  assert (heap_le h h1) as L by (apply (heap_le_halloc h (mkB ord false))).
+  assert (forall x y, aslot (zset (zset (o_adj o) n (zset rn m rf)) m (zset rm n rf)) x y =
+                      if ((x =? n) && (y =? m)) || ((x =? m) && (y =? n)) then Some rf else aslot (o_adj o) x y) as A
+    by (intros; now apply aslot_put).
+  destruct W as [Wk Wnd Wsym Wloop Wval Wlt].
+  assert (forall r, In r (arefs (zset (zset (o_adj o) n (zset rn m rf)) m (zset rm n rf))) -> r = rf \/ In r (arefs (o_adj o))) as R.
+  { intros r H. apply In_arefs_zset in H. destruct H as [H|H].
+    - apply In_snd_zset in H. destruct H; [now left | right; now apply (In_arefs_row _ m rm)].
+    - apply In_arefs_zset in H. destruct H as [H|H]; [|now right].
+      apply In_snd_zset in H. destruct H; [now left | right; now apply (In_arefs_row _ n rn)]. }
+  split; [split; [split|]|].
+  - constructor; simpo.
+    + rewrite keys_zset_in, keys_zset_in; [assumption | eapply zget_In_keys; eauto |].
+      rewrite keys_zset_in; eapply zget_In_keys; eauto.
+    + apply nd_zset; [apply nd_zset; [assumption|] |]; apply NoDup_keys_zset; destruct Wnd as [_ Rw]; eapply Rw; eauto.
+    + intros x y r. rewrite !A.
+      destruct (Z.eqb_spec x n), (Z.eqb_spec y m), (Z.eqb_spec x m), (Z.eqb_spec y n); subst; cbn; try congruence; auto.
+    + intros x. rewrite A. destruct (Z.eqb_spec x n), (Z.eqb_spec x m); subst; cbn; try congruence; auto.
+    + intros r H. apply R in H. destruct H as [H|H].
+      * subst. exists (mkB ord false). unfold h1, hget. cbn. now rewrite Z.eqb_refl.
+      * apply Wval in H. destruct H as [c0 H]. destruct L as [_ V]. eapply V; eauto.
+    + intros r H. apply R in H. unfold h1; cbn. destruct H as [H|H]; [subst; lia | apply Wlt in H; unfold rf; lia].
+  - exact C.
+  - simpo. rewrite <- Wk. intros x [E|[E|[]]]; subst; eapply zget_In_keys; eauto.
+  - split; [exact L|]. split; [|split; [|reflexivity]].
+    + intros r Hr _. unfold h1, hget. cbn. destruct (Z.eqb_spec r rf); [unfold rf in *; lia | reflexivity].
+    + simpo. intros r H. apply R in H. destruct H; [right; subst; unfold rf; lia | now left].
+Qed.
+
+Lemma flush_good' (A : list (Z * acell) -> Prop) ks kc :
+  good (fun h o => inv1 h o /\ A (o_atoms o)) (flush ks kc) (fun h o => inv1 h o /\ A (o_atoms o)).
+Proof. intros h o [H HA]. cbn. split; [split; [eapply inv1_same; eauto | exact HA] | now apply fine_same]. Qed.
+
+Lemma add_atom_good c n : good1 (add_atom c n).
+Proof.
+  intros h o H. unfold add_atom.
+  set (n' := match n with None => zmax (keys (o_atoms o)) 0 + 1 | Some x => x end).
+  destruct (match n with Some x => zmem x (keys (o_atoms o)) | None => false end) eqn:E.
+  - apply good1_raise; assumption.
+  - assert (~ In n' (keys (o_atoms o))) as N.
+    { unfold n'. destruct n as [x|]; [now apply zmem_false_notin|]. intros Hi. apply (zmax_ge _ 0) in Hi. lia. }
+    assert (good (fun h o => inv1 h o /\ ~ In n' (keys (o_atoms o)))
+                 (put_atom c n' ;; flush false false ;; mark_changed [n'] ;; unless_transaction fix_structure) inv1) as G.
+    { eapply good_seq; [apply put_atom_good | | intros ? ? []; assumption].
+      eapply good_seq; [apply (flush_good' (fun a => In n' (keys a))) | | intros ? ? []; assumption].
+      eapply good_seq; [| apply unless_transaction_good, fix_structure_good | auto].
+      eapply good_weaken; [apply mark_changed_good | | auto]. intros h0 o0 [I Hn]. split; [exact I|].
+      intros x [E'|[]]. now subst. }
+    apply G. split; assumption.
+Qed.
+
+Lemma add_bond_good n m ord : good1 (add_bond n m ord).
+Proof.
+  intros h o H. unfold add_bond.
+  destruct (negb (valid_order ord)); [apply good1_raise; assumption|].
+  destruct (Z.eqb_spec n m) as [E|D]; [apply good1_raise; assumption|].
+  destruct (zget (o_adj o) n) as [rn|] eqn:Hn; [|apply good1_raise; assumption].
+  destruct (zget (o_adj o) m) as [rm|] eqn:Hm; [|apply good1_raise; assumption].
+  destruct (zmem n (keys rm)) eqn:Z; [apply good1_raise; assumption|]. apply zmem_false_notin in Z.
+  assert (good (fun h o => inv1 h o /\ n <> m /\ zget (o_adj o) n = Some rn /\ zget (o_adj o) m = Some rm /\ ~ In n (keys rm))
+               (put_bond n m ord rn rm ;; flush false false ;;
+                (if ord =? 8 then unless_transaction calc_labels
+                 else mark_changed [m; n] ;; unless_transaction (fix_structure ;; fix_stereo))) inv1) as G.
+  { eapply good_seq; [apply put_bond_good | | intros ? ? []; assumption].
+    eapply good_seq; [apply (flush_good' (fun a => forall x, In x [m; n] -> In x (keys a))) | | intros ? ? []; assumption].
+    destruct (ord =? 8).
+    - eapply good_weaken; [apply unless_transaction_good, calc_labels_good | intros ? ? []; assumption | auto].
+    - eapply good_seq; [apply mark_changed_good | apply unless_transaction_good, fix_both_good | auto]. }
+  apply G. auto.
+Qed.
+
+(* ---- delete_atom: the loop over the popped row *)
+Lemma unlink_spec n : forall t h o,
+  NoDup (keys t) ->
+  (forall m rf, In (m, rf) t -> exists rm, zget (o_adj o) m = Some rm /\ In n (keys rm) /\ exists c, hget h rf = Some c) ->
+  exists o', unlink n t h o = (h, o', None) /\
+    o_atoms o' = o_atoms o /\ o_backup o' = o_backup o /\ o_cache o' = o_cache o /\
+    keys (o_adj o') = keys (o_adj o) /\
+    (forall x y, aslot (o_adj o') x y = if (y =? n) && zmem x (keys t) then None else aslot (o_adj o) x y) /\
+    (nd (o_adj o) -> nd (o_adj o')) /\
+    (forall r, In r (arefs (o_adj o')) -> In r (arefs (o_adj o))) /\
+    (forall l', o_changed o' = Some l' -> forall x, In x l' -> In x (keys t) \/ exists l, o_changed o = Some l /\ In x l).
+Proof.
+  induction t as [|[m rf] t IH]; intros h o ND Pre.
+  - exists o. cbn [unlink ok]. split; [reflexivity|]. split; [reflexivity|]. split; [reflexivity|]. split; [reflexivity|].
+    split; [reflexivity|]. split; [|split; [auto|split; [auto|]]].
+    + intros x y. cbn. now rewrite andb_false_r.
+    + intros l' Hl x Hx. right. eauto.
+  - destruct (Pre m rf (or_introl eq_refl)) as [rm [Hrm [Hin [c Hc]]]].
+    cbn [unlink]. rewrite Hrm. apply zmem_In in Hin. rewrite Hin. cbn [negb]. rewrite Hc.
+    set (o1 := set_adj o (zset (o_adj o) m (zdel rm n))).
+    cbn [keys map fst] in ND. inversion ND as [|? ? Hm ND']; subst.
+    assert (forall oX, o_adj oX = o_adj o1 -> o_atoms oX = o_atoms o -> o_backup oX = o_backup o -> o_cache oX = o_cache o ->
+              (forall l', o_changed oX = Some l' -> forall x, In x l' -> x = m \/ exists l, o_changed o = Some l /\ In x l) ->
+              exists o', unlink n t h oX = (h, o', None) /\
+                o_atoms o' = o_atoms o /\ o_backup o' = o_backup o /\ o_cache o' = o_cache o /\
+                keys (o_adj o') = keys (o_adj o) /\
+                (forall x y, aslot (o_adj o') x y = if (y =? n) && zmem x (keys ((m, rf) :: t)) then None else aslot (o_adj o) x y) /\
+                (nd (o_adj o) -> nd (o_adj o')) /\
+                (forall r, In r (arefs (o_adj o')) -> In r (arefs (o_adj o))) /\
+                (forall l', o_changed o' = Some l' -> forall x, In x l' ->
+                    In x (keys ((m, rf) :: t)) \/ exists l, o_changed o = Some l /\ In x l)) as K.
+    { intros oX EA EAt EB EC ECh.
+      destruct (IH h oX ND') as [o' [R [A1 [A2 [A2' [A3 [A4 [A5 [A6 A7]]]]]]]]].
+      { intros m' rf' Hi. destruct (Pre m' rf' (or_intror Hi)) as [rm' [H1 H2]]. exists rm'. split; [|exact H2].
+        rewrite EA. unfold o1. simpo. rewrite zget_zset. destruct (Z.eqb_spec m' m); [|assumption].
+        subst. exfalso. apply Hm. change m with (fst (m, rf')). now apply in_map. }
+      exists o'. split; [exact R|]. split; [congruence|]. split; [congruence|]. split; [congruence|]. split; [|split; [|split; [|split]]].
+      - rewrite A3, EA. unfold o1. simpo. apply keys_zset_in. eapply zget_In_keys; eauto.
+      - intros x y. rewrite A4, EA. unfold o1. simpo. rewrite aslot_zset, zget_zdel.
+        replace (zmem x (keys ((m, rf) :: t))) with ((x =? m) || zmem x (keys t)) by reflexivity.
+        destruct (Z.eqb_spec x m) as [->|]; cbn [orb andb]; [|reflexivity].
+        assert (aslot (o_adj o) m y = zget rm y) as -> by (unfold aslot; now rewrite Hrm).
+        destruct (y =? n), (zmem m (keys t)); reflexivity.
+      - intros N. apply A5. rewrite EA. unfold o1. simpo. apply nd_zset; [assumption|]. apply NoDup_keys_zdel.
+        destruct N as [_ Rw]. eapply Rw; eauto.
+      - intros r Hi. apply A6 in Hi. rewrite EA in Hi. unfold o1 in Hi. simpo. apply In_arefs_zset in Hi. destruct Hi as [Hi|Hi]; [|assumption].
+        apply In_snd_zdel in Hi. eapply In_arefs_row; eauto.
+      - intros l' Hl x Hx. destruct (A7 l' Hl x Hx) as [Hk|[l [Hl2 Hx2]]].
+        + left. cbn. now right.
+        + destruct (ECh l Hl2 x Hx2) as [E|E]; [left; cbn; now left | now right]. }
+    destruct (b_ord c =? 8).
+    + apply K; try reflexivity. intros l' Hl x Hx. right. exists l'. split; assumption.
+    + unfold seq, mark_changed. destruct (o_changed o1) as [l0|] eqn:E0; cbn [ok]; apply K; try reflexivity; simpo.
+      * intros l' Hl x Hx. inversion Hl; subst. cbn [fold_right] in Hx. apply In_sadd in Hx. destruct Hx as [Hx|Hx]; [now left|]. right. exists l0.
+        split; [exact E0 | exact Hx].
+      * intros l' Hl x Hx. inversion Hl; subst. destruct Hx as [Hx|[]]. now left.
+Qed.
+
+Definition cwmod (n : Z) (o : mobj) : Prop :=
+  forall l, o_changed o = Some l -> forall x, In x l -> x = n \/ In x (keys (o_atoms o)).
+
+Lemma delete_struct n h o a r :
+  inv1 h o -> zget (o_atoms o) n = Some a -> zget (o_adj o) n = Some r ->
+  exists o1, (drop_atom n ;; unlink n r) h o = (h, o1, None) /\ wf h o1 /\ cwmod n o1 /\ fine h o h o1 /\ o_cache o1 = o_cache o.
+Proof.
+  intros [W C] Ha Hr. destruct W as [Wk Wnd Wsym Wloop Wval Wlt].
+  set (o0 := set_adj (set_atoms o (zdel (o_atoms o) n)) (zdel (o_adj o) n)).
+  assert (forall m rf, In (m, rf) r -> aslot (o_adj o) n m = Some rf) as Sl.
+  { intros m rf Hi. unfold aslot. rewrite Hr. apply In_zget_nodup; [|assumption]. destruct Wnd as [_ Rw]. eapply Rw; eauto. }
+  destruct (unlink_spec n r h o0) as [o1 [R [A1 [A2 [A2' [A3 [A4 [A5 [A6 A7]]]]]]]]].
+  { destruct Wnd as [_ Rw]. eapply Rw; eauto. }
+  { intros m rf Hi. pose proof (Sl _ _ Hi) as S1. pose proof (Wsym _ _ _ S1) as S2.
+    apply aslot_row in S2. destruct S2 as [rm [H1 H2]]. exists rm. split; [|split].
+    - unfold o0. simpo. rewrite zget_zdel. destruct (Z.eqb_spec m n); [|assumption]. subst. rewrite Wloop in S1. discriminate.
+    - eapply zget_In_keys; eauto.
+    - apply Wval. eapply aslot_arefs; eauto. }
+  exists o1. unfold o0 in *. simpo.
+  assert (forall x y, aslot (o_adj o1) x y = if (y =? n) && zmem x (keys r) then None else if x =? n then None else aslot (o_adj o) x y) as AS
+    by (intros; now rewrite A4, aslot_zdel).
+  split; [unfold seq, drop_atom, ok; exact R|]. split; [|split; [|split]].
+  - constructor.
+    + rewrite A3, A1, !keys_zdel. now rewrite Wk.
+    + apply A5. now apply nd_zdel.
+    + intros x y rf. rewrite !AS. destruct ((y =? n) && zmem x (keys r)) eqn:E1; [discriminate|].
+      destruct (Z.eqb_spec x n) as [|Dx]; [discriminate|]. intros H. pose proof (Wsym _ _ _ H) as S.
+      destruct (Z.eqb_spec y n) as [->|Dy].
+      * exfalso. assert (In x (keys r)) as Hi.
+        { unfold aslot in S. rewrite Hr in S. eapply zget_In_keys; eauto. }
+        apply zmem_In in Hi. rewrite Hi in E1. discriminate.
+      * replace (x =? n) with false by (symmetry; now apply Z.eqb_neq). cbn. exact S.
+    + intros x. rewrite AS. destruct ((x =? n) && zmem x (keys r)); [reflexivity|]. destruct (x =? n); [reflexivity | apply Wloop].
+    + intros rf Hi. apply Wval. apply A6 in Hi. now apply In_arefs_zdel in Hi.
+    + intros rf Hi. apply Wlt. apply A6 in Hi. now apply In_arefs_zdel in Hi.
+  - intros l' Hl x Hx. rewrite A1. destruct (A7 l' Hl x Hx) as [Hk|[l [Hl2 Hx2]]].
+    + right. apply In_keys_zdel. apply keys_In_zget in Hk. destruct Hk as [rf Hk]. apply zget_In in Hk. apply Sl in Hk.
+      split.
+      * intros ->. rewrite Wloop in Hk. discriminate.
+      * eapply wfa_nbr_atom; [constructor; eauto | eauto].
+    + destruct (Z.eq_dec x n); [now left|]. right. apply In_keys_zdel. split; [assumption|]. eapply C; eauto.
+  - split; [apply heap_le_refl|]. split; [reflexivity|]. split; [|exact A2].
+    intros rf Hi. left. apply A6 in Hi. now apply In_arefs_zdel in Hi.
+  - exact A2'.
+Qed.
+
+Lemma discard_changed_mod n : good (fun h o => wf h o /\ cwmod n o) (discard_changed n) inv1.
+Proof.
+  intros h o [W C]. cbn. split; [|now apply fine_same]. split; [exact W|]. intros l Hl x Hx. simpo.
+  destruct (o_changed o) eqn:E; [|discriminate]. inversion Hl; subst. apply filter_In in Hx. destruct Hx as [Hx Hn].
+  destruct (C _ E _ Hx) as [->|]; [|assumption]. rewrite Z.eqb_refl in Hn. discriminate.
+Qed.
+
+Lemma delete_atom_good n : good1 (delete_atom n).
+Proof.
+  intros h o H. unfold delete_atom.
+  destruct (zget (o_atoms o) n) as [a|] eqn:Ha; [|apply good1_raise; assumption].
+  destruct (zget (o_adj o) n) as [r|] eqn:Hr; [|apply good1_raise; assumption].
+  destruct (delete_struct n h o a r H Ha Hr) as [o1 [R [W1 [C1 [F1 _]]]]].
+  assert (good (fun h o => wf h o /\ cwmod n o)
+               (discard_changed n ;; flush false false ;; unless_transaction (fix_structure ;; fix_stereo)) inv1) as G.
+  { eapply good_seq; [apply discard_changed_mod | | auto].
+    apply good1_seq; [apply flush_good | apply unless_transaction_good, fix_both_good]. }
+  specialize (G h o1 (conj W1 C1)).
+  unfold seq in *. unfold drop_atom, ok in *. rewrite R.
+  match goal with |- context [match ?X with _ => _ end] => destruct X as [[h2 o2] e2] end.
+  destruct G as [I2 F2]. split; [exact I2 | eapply fine_trans; eauto].
+Qed.
+
+(* ---- delete_bond *)
+Lemma aslot_cut adj n m rn rm x y :
+  zget adj n = Some rn -> zget adj m = Some rm -> n <> m ->
+  aslot (zset (zset adj n (zdel rn m)) m (zdel rm n)) x y =
+  if ((x =? n) && (y =? m)) || ((x =? m) && (y =? n)) then None else aslot adj x y.
+Proof.
+  intros Hn Hm D. rewrite !aslot_zset, !zget_zdel. unfold aslot.
+  destruct (Z.eqb_spec x m), (Z.eqb_spec x n); subst; try congruence; cbn.
+  - rewrite Hm. destruct (y =? n); reflexivity.
+  - rewrite Hn. destruct (y =? m); reflexivity.
+  - reflexivity.
+Qed.
+
+Lemma delete_bond_struct n m h o rn rf0 :
+  inv1 h o -> zget (o_adj o) n = Some rn -> zget rn m = Some rf0 ->
+  exists rm cl, zget (o_adj o) m = Some rm /\ zget rm n = Some rf0 /\ n <> m /\ hget h rf0 = Some cl /\
+    let o2 := set_adj o (zset (zset (o_adj o) n (zdel rn m)) m (zdel rm n)) in
+    inv1 h o2 /\ fine h o h o2 /\ (forall x, In x [m; n] -> In x (keys (o_atoms o2))).
+Proof.
+  intros [W C] Hn Hnm. pose proof W as W0. destruct W as [Wk Wnd Wsym Wloop Wval Wlt].
+  assert (aslot (o_adj o) n m = Some rf0) as S1 by (unfold aslot; now rewrite Hn).
+  pose proof (Wsym _ _ _ S1) as S2. pose proof (wfa_neq _ _ _ _ _ _ W0 S1) as D.
+  apply aslot_row in S2. destruct S2 as [rm [Hm Hmn]]. destruct (Wval rf0 (aslot_arefs _ _ _ _ S1)) as [cl Hc].
+  exists rm, cl. split; [exact Hm|]. split; [exact Hmn|]. split; [exact D|]. split; [exact Hc|]. intros o2.
+  assert (forall x y, aslot (o_adj o2) x y = if ((x =? n) && (y =? m)) || ((x =? m) && (y =? n)) then None else aslot (o_adj o) x y) as A
+    by (intros; unfold o2; simpo; now apply aslot_cut).
+  assert (forall r, In r (arefs (o_adj o2)) -> In r (arefs (o_adj o))) as R.
+  { unfold o2; simpo. intros r H. apply In_arefs_zset in H. destruct H as [H|H].
+    - apply In_snd_zdel in H. now apply (In_arefs_row _ m rm).
+    - apply In_arefs_zset in H. destruct H as [H|H]; [|assumption]. apply In_snd_zdel in H. now apply (In_arefs_row _ n rn). }
+  split; [split|split].
+  - constructor.
+    + unfold o2; simpo. rewrite keys_zset_in, keys_zset_in; [assumption | eapply zget_In_keys; eauto |].
+      rewrite keys_zset_in; eapply zget_In_keys; eauto.
+    + unfold o2; simpo. destruct Wnd as [N Rw]. apply nd_zset; [apply nd_zset; [split; assumption|] |]; apply NoDup_keys_zdel; eapply Rw; eauto.
+    + intros x y r. rewrite !A.
+      destruct (Z.eqb_spec x n), (Z.eqb_spec y m), (Z.eqb_spec x m), (Z.eqb_spec y n); subst; cbn; try congruence; auto.
+    + intros x. rewrite A. destruct (Z.eqb_spec x n), (Z.eqb_spec x m); subst; cbn; try congruence; auto.
+    + intros r H. apply Wval. now apply R.
+    + intros r H. apply Wlt. now apply R.
+  - exact C.
+  - split; [apply heap_le_refl|]. split; [reflexivity|]. split; [|reflexivity]. intros r H. left. now apply R.
+  - unfold o2; simpo. rewrite <- Wk. intros x [E|[E|[]]]; subst; eapply zget_In_keys; eauto.
+Qed.
+
+Lemma delete_bond_good n m : good1 (delete_bond n m).
+Proof.
+  intros h o H. unfold delete_bond.
+  destruct (zget (o_adj o) n) as [rn|] eqn:Hn; [|apply good1_raise; assumption].
+  destruct (zget rn m) as [rf0|] eqn:Hnm; [|apply good1_raise; assumption].
+  destruct (delete_bond_struct n m h o rn rf0 H Hn Hnm) as [rm [cl [Hm [Hmn [D [Hc K]]]]]].
+  simpo. rewrite zget_zset. replace (m =? n) with false by (symmetry; apply Z.eqb_neq; congruence).
+  rewrite Hm, Hmn, Hc. cbn zeta in K. destruct K as [I2 [F2 N2]].
+  assert (good (fun h o => inv1 h o /\ forall x, In x [m; n] -> In x (keys (o_atoms o)))
+               ((if b_ord cl =? 8 then ok else mark_changed [m; n]) ;; flush false false ;;
+                unless_transaction (fix_structure ;; fix_stereo)) inv1) as G.
+  { eapply good_seq with (Q := inv1); [| apply good1_seq; [apply flush_good | apply unless_transaction_good, fix_both_good] | auto].
+    destruct (b_ord cl =? 8); [|apply mark_changed_good]. eapply good_weaken; [apply good1_ok | intros ? ? []; assumption | auto]. }
+  match goal with |- context [?A ?H ?O] => match A with seq _ _ => specialize (G H O (conj I2 N2)); destruct (A H O) as [[h3 o3] e3] end end.
+  destruct G as [I3 F3]. split; [exact I3 | eapply fine_trans; eauto].
+Qed.
+
+(* ---- remap *)
+Definition inj_on (f : Z -> Z) (l : list Z) : Prop := forall x y, In x l -> In y l -> f x = f y -> x = y.
+Lemma NoDup_map_inj f l : inj_on f l -> NoDup l -> NoDup (map f l).
+Proof.
+  induction l as [|a r IH]; cbn; intros I N; [constructor|]. inversion N; subst. constructor.
+  - intros H. apply in_map_iff in H. destruct H as [b [E Hb]]. assert (b = a) by (apply I; cbn; auto). subst. contradiction.
+  - apply IH; [|assumption]. intros x y Hx Hy. apply I; cbn; auto.
+Qed.
+Lemma nodup_z_NoDup l : nodup_z l = true -> NoDup l.
+Proof.
+  induction l as [|a r IH]; cbn; [constructor|]. intros H. apply andb_true_iff in H. destruct H as [H1 H2].
+  constructor; [|auto]. apply zmem_false_notin. now destruct (zmem a r).
+Qed.
+Lemma zget_val_inj (mp : list (Z * Z)) x y v : NoDup (map snd mp) -> zget mp x = Some v -> zget mp y = Some v -> x = y.
+Proof.
+  induction mp as [|[k w] t IH]; cbn; [discriminate|]. intros N. inversion N; subst.
+  assert (forall z, zget t z = Some w -> False) as F.
+  { intros z Hz. apply zget_In in Hz. apply H1. change w with (snd (z, w)). now apply in_map. }
+  destruct (Z.eqb_spec x k), (Z.eqb_spec y k); subst; intros A B.
+  - reflexivity.
+  - inversion A; subst. exfalso. eapply F; eauto.
+  - inversion B; subst. exfalso. eapply F; eauto.
+  - eapply IH; eauto.
+Qed.
+Lemma zget_val_In (mp : list (Z * Z)) x v : zget mp x = Some v -> In v (map snd mp).
+Proof. intros H. apply zget_In in H. change v with (snd (x, v)). now apply in_map. Qed.
+Lemma mg_inj mp ks :
+  nodup_z (map snd mp) = true -> existsb (fun n => negb (zmem n (keys mp)) && zmem n (map snd mp)) ks = false -> inj_on (mg mp) ks.
+Proof.
+  intros N E x y Hx Hy. apply nodup_z_NoDup in N.
+  assert (forall z v, In z ks -> zget mp z = None -> In v (map snd mp) -> z <> v) as F.
+  { intros z v Hz Hn Hv ->. assert (existsb (fun n => negb (zmem n (keys mp)) && zmem n (map snd mp)) ks = true); [|congruence].
+    apply existsb_exists. exists v. split; [assumption|]. apply zget_None_keys in Hn. apply zmem_false_notin in Hn. rewrite Hn.
+    apply zmem_In in Hv. now rewrite Hv. }
+  unfold mg. destruct (zget mp x) as [v|] eqn:Ex, (zget mp y) as [v'|] eqn:Ey; intros H.
+  - rewrite <- H in Ey. eapply zget_val_inj; eauto.
+  - exfalso. apply (F y v Hy Ey); [eapply zget_val_In; eauto | congruence].
+  - exfalso. apply (F x v' Hx Ex); [eapply zget_val_In; eauto | congruence].
+  - exact H.
+Qed.
+
+Definition rn_atoms (f : Z -> Z) (atoms : list (Z * acell)) := map (fun na => (f (fst na), snd na)) atoms.
+Definition rn_row (f : Z -> Z) (rw : list (Z * ref)) := map (fun mr => (f (fst mr), snd mr)) rw.
+Definition rn_adj (f : Z -> Z) (adj : adjacency) : adjacency := map (fun nr => (f (fst nr), rn_row f (snd nr))) adj.
+Lemma keys_rn_atoms f a : keys (rn_atoms f a) = map f (keys a).
+Proof. unfold keys, rn_atoms. rewrite !map_map. reflexivity. Qed.
+Lemma keys_rn_row f a : keys (rn_row f a) = map f (keys a).
+Proof. unfold keys, rn_row. rewrite !map_map. reflexivity. Qed.
+Lemma keys_rn_adj f a : keys (rn_adj f a) = map f (keys a).
+Proof. unfold keys, rn_adj. rewrite !map_map. reflexivity. Qed.
+Lemma arefs_rn_adj f a : arefs (rn_adj f a) = arefs a.
+Proof.
+  unfold arefs, refs_of_adj, rn_adj. induction a as [|[n rw] t IH]; cbn; [reflexivity|]. rewrite IH. f_equal.
+  unfold rn_row. rewrite map_map. reflexivity.
+Qed.
+
+Lemma wfa_rename f h atoms adj : wfa h atoms adj -> inj_on f (keys atoms) -> wfa h (rn_atoms f atoms) (rn_adj f adj).
+Proof.
+  intros W I. pose proof W as W0. destruct W as [Wk Wnd Wsym Wloop Wval Wlt]. destruct Wnd as [N Rw].
+  assert (nd (rn_adj f adj)) as ND.
+  { split.
+    - rewrite keys_rn_adj. apply NoDup_map_inj; [now rewrite Wk | assumption].
+    - intros x' rw' H. apply zget_In in H. unfold rn_adj in H. apply in_map_iff in H. destruct H as [[x rw] [E H]]. cbn [fst snd] in E.
+      inversion E; subst. rewrite keys_rn_row. assert (zget adj x = Some rw) as Hz by now apply In_zget_nodup.
+      apply NoDup_map_inj; [|eapply Rw; eauto]. intros a b Ha Hb. apply I.
+      + apply keys_In_zget in Ha. destruct Ha as [r Ha]. eapply (wfa_nbr_atom _ _ _ x a r W0). unfold aslot. now rewrite Hz.
+      + apply keys_In_zget in Hb. destruct Hb as [r Hb]. eapply (wfa_nbr_atom _ _ _ x b r W0). unfold aslot. now rewrite Hz. }
+  assert (forall x' y' r, aslot (rn_adj f adj) x' y' = Some r -> exists x y, x' = f x /\ y' = f y /\ aslot adj x y = Some r) as Fw.
+  { intros x' y' r H. apply aslot_In in H. destruct H as [rw' [H1 H2]]. unfold rn_adj in H1. apply in_map_iff in H1.
+    destruct H1 as [[x rw] [E H1]]. cbn [fst snd] in E. inversion E; subst. unfold rn_row in H2. apply in_map_iff in H2.
+    destruct H2 as [[y r0] [E2 H2]]. cbn [fst snd] in E2. inversion E2; subst. exists x, y. repeat split. eapply nd_In_aslot; eauto. split; assumption. }
+  assert (forall x y r, aslot adj x y = Some r -> aslot (rn_adj f adj) (f x) (f y) = Some r) as Bw.
+  { intros x y r H. apply aslot_In in H. destruct H as [rw [H1 H2]]. eapply (nd_In_aslot _ (f x) (rn_row f rw)); [exact ND | |].
+    - unfold rn_adj. apply in_map_iff. exists (x, rw). split; [reflexivity | assumption].
+    - unfold rn_row. apply in_map_iff. exists (y, r). split; [reflexivity | assumption]. }
+  constructor.
+  - rewrite keys_rn_adj, keys_rn_atoms. now rewrite Wk.
+  - exact ND.
+  - intros x' y' r H. apply Fw in H. destruct H as [x [y [-> [-> H]]]]. apply Bw. now apply Wsym.
+  - intros x'. destruct (aslot (rn_adj f adj) x' x') as [r|] eqn:E; [|reflexivity]. exfalso.
+    apply Fw in E. destruct E as [x [y [E1 [E2 H]]]]. assert (x = y).
+    { apply I; [eapply wfa_self_atom; eauto | eapply wfa_nbr_atom; eauto | congruence]. }
+    subst. rewrite Wloop in H. discriminate.
+  - intros r. rewrite arefs_rn_adj. apply Wval.
+  - intros r. rewrite arefs_rn_adj. apply Wlt.
+Qed.
+
+Lemma remap_good mp : good1 (remap mp).
+Proof.
+  intros h o [W C]. unfold remap.
+  destruct (nodup_z (map snd mp)) eqn:E1; cbn [negb orb]; [|apply good1_raise; split; assumption].
+  destruct (existsb _ (keys (o_atoms o))) eqn:E2; [apply good1_raise; split; assumption|].
+  pose proof (mg_inj mp _ E1 E2) as I. unfold flush, ok. cbn beta iota. simpo.
+  fold (rn_atoms (mg mp) (o_atoms o)). fold (rn_adj (mg mp) (o_adj o)).
+  split; [split|].
+  - unfold wf. simpo. now apply wfa_rename.
+  - intros l Hl x Hx. simpo. rewrite keys_rn_atoms. destruct (o_changed o) as [l0|] eqn:E; [|discriminate]. inversion Hl; subst.
+    apply In_fold_sadd in Hx. destruct Hx as [Hx|[]]. apply in_map_iff in Hx. destruct Hx as [y [<- Hy]]. apply in_map. eapply C; eauto.
+  - split; [apply heap_le_refl|]. split; [reflexivity|]. split; [|reflexivity]. simpo.
+    intros r Hr. left. rewrite <- (arefs_rn_adj (mg mp)). exact Hr.
+Qed.
+
+(* ---- attribute setters, name, meta *)
+Lemma set_charge_good n v : good1 (set_charge n v).
+Proof.
+  intros h o H. unfold set_charge. destruct (zget (o_atoms o) n) as [a|] eqn:E; [|apply good1_raise; assumption].
+  destruct ((v >? 4) || (v <? -4)); [apply good1_raise; assumption|]. cbn.
+  split; [|now apply fine_same]. eapply inv1_same; eauto. simpo. eapply keys_zset_same; eauto.
+Qed.
+Lemma set_radical_good n v : good1 (set_radical n v).
+Proof.
+  intros h o H. unfold set_radical. destruct (zget (o_atoms o) n) as [a|] eqn:E; [|apply good1_raise; assumption]. cbn.
+  split; [|now apply fine_same]. eapply inv1_same; eauto. simpo. eapply keys_zset_same; eauto.
+Qed.
+Lemma set_name_good x : good1 (fun h o => ok h (set_name o x)).
+Proof. intros h o H. cbn. split; [eapply inv1_same; eauto | now apply fine_same]. Qed.
+Lemma set_meta_good x : good1 (fun h o => ok h (set_meta o x)).
+Proof. intros h o H. cbn. split; [eapply inv1_same; eauto | now apply fine_same]. Qed.
+
+(* ---- the patch step of Standardize *)
+Lemma calc_implicit_good n : good1 (calc_implicit n).
+Proof. apply relabels_good, calc_implicit_relabels. Qed.
+
+Lemma patch_good n m bo dch : good1 (patch n m bo dch).
+Proof.
+  intros h o H. unfold patch.
+  destruct (Z.eqb_spec n m) as [|D]; [apply good1_raise; assumption|].
+  destruct (zget (o_atoms o) n) as [an|] eqn:Ean; [|apply good1_raise; assumption].
+  destruct (zget (o_atoms o) m) as [am|] eqn:Eam; [|apply good1_raise; assumption].
+  destruct (zget (o_adj o) n) as [rn|] eqn:Ern; [|apply good1_raise; assumption].
+  destruct (zget (o_adj o) m) as [rm|] eqn:Erm; [|apply good1_raise; assumption].
+  assert (good1 (calc_labels ;; calc_implicit n ;; calc_implicit m ;; fix_stereo)) as G2.
+  { apply good1_seq; [apply calc_labels_good|]. apply good1_seq; [apply calc_implicit_good|].
+    apply good1_seq; [apply calc_implicit_good | apply fix_stereo_good]. }
+  destruct (c_chg (a_core an) + dch >? 4).
+  { assert (good1 (flush true true ;; calc_labels ;; calc_implicit n ;; fix_stereo)) as G.
+    { apply good1_seq; [apply flush_good|]. apply good1_seq; [apply calc_labels_good|].
+      apply good1_seq; [apply calc_implicit_good | apply fix_stereo_good]. }
+    apply G; assumption. }
+  set (o1 := set_atoms o _).
+  assert (inv1 h o1) as I1. { eapply inv1_same; eauto. unfold o1; simpo. eapply keys_zset_same; eauto. }
+  assert (fine h o h o1) as F1 by (now apply fine_same).
+  destruct (zget rn m) as [rf|] eqn:Enm.
+  - destruct (hget h rf) as [cl|] eqn:Ec; [|cbn; split; assumption].
+    set (h1 := hset h rf (mkB bo (b_lab cl))).
+    assert (In rf (arefs (o_adj o))) as Rf.
+    { apply (In_arefs_row _ n rn); [assumption|]. apply zget_In in Enm. change rf with (snd (m, rf)). now apply in_map. }
+    assert (inv1 h1 o1) as I2. { destruct I1 as [W C]. split; [|exact C]. eapply wfa_heap; [exact W|]. eapply heap_le_hset; eauto. }
+    assert (fine h o1 h1 o1) as F2.
+    { split; [eapply heap_le_hset; eauto|]. split; [|split; [auto | reflexivity]].
+      intros r _ Hn. unfold h1. rewrite hget_hset. destruct (Z.eqb_spec r rf); [subst; contradiction | reflexivity]. }
+    assert (good1 (flush (negb ((b_ord cl =? 8) || (bo =? 8))) true ;; calc_labels ;; calc_implicit n ;; calc_implicit m ;; fix_stereo)) as G
+      by (apply good1_seq; [apply flush_good | exact G2]).
+    specialize (G h1 o1 I2).
+    match goal with |- context [?A h1 o1] => destruct (A h1 o1) as [[h3 o3] e3] end.
+    destruct G as [I3 F3]. split; [exact I3|]. eapply fine_trans; [exact F1|]. eapply fine_trans; [exact F2 | exact F3].
+  - assert (good (fun h o => inv1 h o /\ n <> m /\ zget (o_adj o) n = Some rn /\ zget (o_adj o) m = Some rm /\ ~ In n (keys rm))
+                 (put_bond n m bo rn rm ;; flush false false ;; calc_labels ;; calc_implicit n ;; calc_implicit m ;; fix_stereo) inv1) as G.
+    { eapply good_seq; [apply put_bond_good | | intros ? ? []; assumption].
+      eapply good_weaken; [apply good1_seq; [apply flush_good | exact G2] | intros ? ? []; assumption | auto]. }
+    assert (~ In n (keys rm)) as Nn.
+    { intros Hi. apply keys_In_zget in Hi. destruct Hi as [r Hr]. destruct H as [W _].
+      assert (aslot (o_adj o) m n = Some r) as S by (unfold aslot; now rewrite Erm).
+      apply (wf_sym _ _ _ W) in S. unfold aslot in S. rewrite Ern in S. congruence. }
+    specialize (G h o1). unfold o1 in G at 1. simpo. specialize (G (conj I1 (conj D (conj Ern (conj Erm Nn))))).
+    match goal with |- context [?A h o1] => destruct (A h o1) as [[h3 o3] e3] end.
+    destruct G as [I3 F3]. split; [exact I3|]. eapply fine_trans; [exact F1 | exact F3].
+Qed.
